@@ -238,6 +238,8 @@ def m_into_iter_generic(I, fr, callee, m, args):
             return map_iter_ref(I, v, inner)
     if isinstance(v, En) and v.ty == 'Option':
         return IterV('list', items=tuple(v.f[:1]) if v.var == 'Some' else (), i=0)
+    if isinstance(v, Agg) and (v.ty, 'next') in I.prog.methods:
+        return v            # impl<I: Iterator> IntoIterator for I  (a crate type implementing Iterator)
     return NotImplemented
 
 
